@@ -252,7 +252,7 @@ def run(ctx):
         c = cases[len(cases) // 3]
         ctx.sample({'kind': 'GEN case', **{k: c[k] for k in ('data', 'thrkind', 'badkind', 'bad', 'conn', 'npix', 'expect')}})
     n = 1500 if q else 20000
-    recs = core.pmap(record_case, [ctx.seed * 7919 + i for i in range(n)], chunksize=32)
+    recs = core.pmap(record_case, [ctx.seed * 7919 + i for i in range(n)], chunksize=32, on_raise='drop')
     ver = core.validate_batch(ctx, 'Trace_Detect', recs, 'Trace:Detect')
     seen = set()
     for rec in recs:
